@@ -279,6 +279,18 @@ func judgeH1(r *hk.Run, cs *Case, res *Result) {
 	} else {
 		r.Count("outcome:response")
 	}
+	switch cs.Expect {
+	case "error":
+		if !res.RespNil {
+			r.Fail(hk.Failure{Sig: "expected-error:" + sh, What: fmt.Sprintf("the call returned a response (status %d) where it must fail: %s", res.Status, expectWhy(cs)), Input: cs, Got: res, Want: "an error"})
+		}
+	case "response", "response-clean":
+		if res.RespNil {
+			r.Fail(hk.Failure{Sig: "expected-response:" + sh, What: "the call failed where a complete, well-formed response was served: " + expectWhy(cs), Input: cs, Got: res.Err, Want: "a response"})
+		} else if cs.Expect == "response-clean" && res.BodyErr != "" {
+			r.Fail(hk.Failure{Sig: "expected-clean-body:" + sh, What: "the response is complete (" + expectWhy(cs) + ") but reading it ended with: " + res.BodyErr, Input: cs, Got: res.BodyErr, Want: "a clean end of the body"})
+		}
+	}
 	if res.HasChain && res.ChainNil {
 		r.Fail(hk.Failure{Sig: "nil-reader:" + sh, What: "a reader in the body stack is nil: " + strings.Join(res.Chain, ">"), Input: cs, Got: res.Chain})
 	}
@@ -317,15 +329,18 @@ func judgeH1(r *hk.Run, cs *Case, res *Result) {
 		}
 		stack := map[string]string{"h1": "H1", "h2": "H2"}[cs.Kind]
 		coq := fmt.Sprintf("StageCase %s {| q_disable := %s; q_ae := %s; q_range := %s; q_head := %s |} %s %s %s "+
-			"{| p_callback := %s; p_decode := {| d_disable := %s; d_custom := %s; d_resp_ae := %s |}; p_dumpers := %s |} %s %s "+
+			"{| p_callback := %s; p_decode := {| d_disable := %s; d_custom := %s |}; p_dumpers := %s |} %s %s %s "+
 			"{| o_parse_err := %s; o_charset := %s; o_known := %s |} %s %s",
 			stack, hk.CoqBool(o.DisableCompression), hk.CoqStr(o.ReqAE), hk.CoqStr(o.ReqRange), hk.CoqBool(cs.Method == "HEAD"), hk.CoqZ(wire), hk.CoqBool(cs.Ended), hk.CoqBool(o.AutoDecompress),
-			hk.CoqBool(o.Callback && o.Download != ""), hk.CoqBool(o.DisableAutoDecode), custom, hk.CoqStr(strings.TrimSpace(cs.S.RespAE)), hk.CoqNat(dumpers),
-			hk.CoqStr(strings.TrimSpace(cs.S.CE)), hk.CoqStr(strings.TrimSpace(cs.S.CT)),
+			hk.CoqBool(o.Callback && o.Download != ""), hk.CoqBool(o.DisableAutoDecode), custom, hk.CoqNat(dumpers),
+			hk.CoqStr(strings.TrimSpace(cs.S.RespAE)), hk.CoqStr(strings.TrimSpace(cs.S.CE)), hk.CoqStr(strings.TrimSpace(cs.S.CT)),
 			hk.CoqBool(perr), hk.CoqOpt(has, hk.CoqStr(chs)), hk.CoqBool(known),
 			hk.CoqList(res.Chain), hk.CoqBool(res.ChainNil))
 		r.Add(hk.Case{Coq: coq, Desc: map[string]interface{}{"kind": "stage", "case": cs, "chain": res.Chain}}, "stage|"+key, len(res.Chain) > 0 || cs.S.CE != "" || cs.S.CT != "")
 		r.Count("coq:stage")
+		if strings.TrimSpace(cs.S.CE) != "" && res.HdrCE != "" {
+			r.Count("stage:content-encoding-still-present")
+		}
 		r.Count(fmt.Sprintf("stage-depth:%d", len(res.Chain)))
 		emitted = true
 	}
@@ -455,4 +470,16 @@ func h3Oracle(s []byte) string {
 		pos += int(l)
 	}
 	return hk.CoqList(entries)
+}
+
+func expectWhy(cs *Case) string {
+	switch {
+	case strings.HasPrefix(cs.Shape, "seq"):
+		return "a head beyond MaxResponseHeaderBytes on a later exchange of a kept-alive connection must be refused, one within it accepted"
+	case strings.HasPrefix(cs.Shape, "limit-"):
+		return "a head within MaxResponseHeaderBytes must be accepted, one beyond it refused"
+	case strings.HasPrefix(cs.Shape, "nobody-chunked-open"):
+		return "a 204/304/HEAD response has no body whatever Transfer-Encoding says: nothing to wait for on the open connection"
+	}
+	return cs.Shape
 }
